@@ -307,6 +307,7 @@ class Interp:
         self.uid_counter = 10 ** 9
         self.builtins = {}
         self.rng_log = []
+        self.max_depth_seen = 0
         self._xdispatch = {}
         self._edispatch = {}
         self._mk_builtins()
@@ -347,6 +348,7 @@ class Interp:
         self.resolved = {}
         self.uid_counter = 10 ** 9
         self.rng_log = []
+        self.max_depth_seen = 0
         self.rng_replay = None
         self.hash_apps = []
         for o, kind, val in self._snap:
@@ -1018,7 +1020,7 @@ class Interp:
         return x
 
     def from_native(self, r):
-        if r is None or isinstance(r, (bool, int, float, str)):
+        if r is None or isinstance(r, (bool, int, float, str, bytes)):
             return r
         if isinstance(r, (list, tuple)):
             return PList(self, [self.from_native(x) for x in r], frozen=isinstance(r, tuple))
@@ -1412,6 +1414,8 @@ class Interp:
         if isinstance(node, ast.Lambda):
             return self.eval(node.body, fr)
         self.depth += 1
+        if self.depth > self.max_depth_seen:
+            self.max_depth_seen = self.depth
         if self.depth > self.MAX_DEPTH:
             self.depth -= 1
             raise BoundHit("call depth")
@@ -2045,6 +2049,8 @@ class Interp:
                 if inb == isinstance(op, ast.BitAnd):
                     s.elems.append(x)
             return s
+        if isinstance(a, bytes) and isinstance(b, bytes) and isinstance(op, ast.Add):
+            return a + b
         if isinstance(a, (int, str, float)) and isinstance(b, (int, str, float)):
             import operator
             ops = {ast.Add: operator.add, ast.Sub: operator.sub, ast.Mult: operator.mul, ast.Div: operator.truediv,
@@ -2670,7 +2676,7 @@ SOURCE_CACHE = {}
 
 OBJECT_DIR = [n for n in dir(object())]
 
-NATIVE_MODULES = {"re", "datetime", "os", "subprocess", "shutil", "tempfile", "sys", "math", "string"}
+NATIVE_MODULES = {"re", "datetime", "os", "subprocess", "shutil", "tempfile", "sys", "math", "string", "pickle", "io"}
 
 INT_HASH_P = 2 ** 61 - 1
 
